@@ -1677,3 +1677,50 @@ def required_key_presence_only(repo, modules):
                                     "nothing behind it (None) passes the test" % (key, d, key)))
     return out, n
 
+
+def shallow_clone_shares_list(repo, modules):
+    """`new = copy.copy(self)` in a clone method: the lists of the original are the lists of the clone.  A list attribute
+    that some pass appends to through a node (`node.fortran_generic.append(g)`) and that clone() does not bind anew is
+    filled once for the original and all its clones together."""
+    out, n = [], 0
+    # attribute names appended to through an object other than self, anywhere
+    appended = {}
+    for mn in modules:
+        m = repo.module(mn)
+        for c in ast.walk(m.tree):
+            if isinstance(c, ast.Call) and isinstance(c.func, ast.Attribute) and c.func.attr in ("append", "extend", "insert") \
+                    and isinstance(c.func.value, ast.Attribute) and isinstance(c.func.value.value, ast.Name) \
+                    and c.func.value.value.id != "self":
+                appended.setdefault(c.func.value.attr, []).append((m, c))
+    for mn in modules:
+        m = repo.module(mn)
+        for cls in [c for c in ast.walk(m.tree) if isinstance(c, ast.ClassDef)]:
+            init = [f for f in cls.body if isinstance(f, ast.FunctionDef) and f.name == "__init__"]
+            clones = [f for f in cls.body if isinstance(f, ast.FunctionDef) and f.name == "clone"]
+            if not init or not clones:
+                continue
+            shallow = [a for a in ast.walk(clones[0]) if isinstance(a, ast.Assign) and isinstance(a.value, ast.Call)
+                       and ast.unparse(a.value.func) == "copy.copy" and a.value.args and pyflow.is_name(a.value.args[0], "self")]
+            if not shallow or not isinstance(shallow[0].targets[0], ast.Name):
+                continue
+            new = shallow[0].targets[0].id
+            lists = set()
+            for a in ast.walk(init[0]):
+                if isinstance(a, ast.Assign) and isinstance(a.targets[0], ast.Attribute) and pyflow.is_name(a.targets[0].value, "self"):
+                    v = a.value
+                    if isinstance(v, (ast.List, ast.ListComp)) or \
+                            (isinstance(v, ast.Call) and isinstance(v.func, ast.Attribute) and v.func.attr == "get" and len(v.args) == 2
+                             and isinstance(v.args[1], ast.List)):
+                        lists.add(a.targets[0].attr)
+            rebound = set(a.targets[0].attr for a in ast.walk(clones[0]) if isinstance(a, ast.Assign)
+                          and isinstance(a.targets[0], ast.Attribute) and pyflow.is_name(a.targets[0].value, new))
+            for attr in sorted(lists):
+                if attr not in appended:
+                    continue
+                n += 1
+                if attr not in rebound:
+                    m2, c = appended[attr][0]
+                    out.append((mn, "%s.clone" % cls.name, shallow[0], "`%s = copy.copy(self)` keeps the original's `%s` list, and "
+                                "`%s` (%s) appends to it through a node: the original and every clone fill one list together"
+                                % (new, attr, " ".join(ast.unparse(c).split())[:50], m2.loc(c))))
+    return out, n
